@@ -761,6 +761,9 @@ class Exec:
             res.extend(self.summarised_loop(s, asV(itv), p2))
         return res
 
+    def sub_exec(self, side):
+        return Exec(self.ctx, side, self.fname)
+
     def dry_written(self, s, xs, p):
         """locations written by the loop body (fixpoint of dry runs from states with the known written set havocked)"""
         written = set()
@@ -768,7 +771,7 @@ class Exec:
             if isinstance(n, ast.Name):
                 written.add("local:" + n.id)
         for _ in range(4):
-            ex = Exec(self.ctx, "dry", self.fname)
+            ex = self.sub_exec("dry")
             ex.fn_locals = self.fn_locals
             ex.writes = set()
             ex.ret_sink = []
